@@ -80,9 +80,6 @@ class Roll(Operation):
     def backward_var(self, grad, index, **kwargs):
         if not index == 0:  # pragma: no cover
             raise IndexError
-        rev_shift = (
-            -self.shift
-            if not hasattr(self.shift, "__iter__")
-            else tuple(-i for i in self.shift)
-        )
+        # (the shift can be an int, a sequence of ints, or an array - including a 0-d one)
+        rev_shift = np.negative(self.shift)
         return np.roll(grad, axis=self.axis, shift=rev_shift)
